@@ -66,6 +66,7 @@ type Store struct {
 	FailAt      int  // index of the call to fail; -1 = none
 	Faulted     bool // the fault fired
 	AfterFault  int  // calls attempted after the fault fired
+	Transient   bool // only the FailAt call fails; later calls succeed (still counted in AfterFault)
 	MaxCalls    int  // 0 = unlimited
 	OverBudget  bool
 	NoLog       bool // do not keep events (C19 stress)
@@ -212,6 +213,9 @@ func (s *Store) enter(op Op) (int, error) {
 	s.calls++
 	if s.Faulted {
 		s.AfterFault++
+		if s.Transient {
+			return idx, nil // the fault was a single failing call; later calls are served (and counted)
+		}
 		return idx, ErrInjected
 	}
 	if s.FailAt >= 0 && idx == s.FailAt {
